@@ -17,13 +17,21 @@ REQUIRED = ['cw_exact', 'cw_none', 'cw_unique',
 UNPROVED = []
 NAME_MODES = ['str', 'int0', 'empty0', 'person']
 REQUIRED_COUNTERS = ['fully_tied_pair', 'mutually_tied_unbeaten', 'missing_pair', 'missing_reverse', 'has_cw', 'cycle',
-                     'from_ranked', 'all_tied', 'fraction']
+                     'from_ranked', 'all_tied', 'fraction',
+                     # generator audit (GENERATOR_CHECKLIST.md)
+                     'ntype:decimal', 'ntype:decimal_long', 'ntype:float_dyadic', 'ntype:float_nd', 'ntype:fraction_all',
+                     'zero_count', 'big', 'close_fraction', 'wtype:fraction', 'wtype:bigint', 'wtype:decimal', 'wtype:float',
+                     'names:int0', 'names:empty0', 'names:person', 'cands_6_7', 'long_cycle', 'smith_ne_schwartz',
+                     'twice', 'shared_instance']
 RULE = ('pairwise dictionaries over 2-6 candidates (7 occasionally): per unordered pair one of x wins / y wins / tie / both '
         'absent / reverse absent / zero-count entries, integer and Fraction counts, shuffled insertion order; dictionaries '
         'derived with the real RankedToCondorcetVotes (both unranked_at_bottom settings) from profiles with truncated '
         'ballots and shared ranks; directed shapes (fully tied pair, tied unbeaten pair above a loser, disconnected '
         'majorities, cycles, Condorcet winner); thorough: every assignment of the five pair states to <= 4 candidates and '
-        'of eight states to 3 candidates.  Ops cw, smith, schwartz, compared as sets.  Non-trivial = at least 3 candidates.')
+        'of eight states to 3 candidates; counts as int / Fraction / Decimal (short and 7 decimals) / float (dyadic and '
+        'non-dyadic) / integers of 10^9..10^30 / Fractions differing in the 12th digit; candidates as strings, ints incl. 0, the '
+        'empty string, Person objects; long majority cycles and 5-7 candidate profiles with every weight type; selector objects '
+        'fresh, shared by the whole run, and called after another (larger) input.  Ops cw, smith, schwartz, compared as sets.  Non-trivial = at least 3 candidates.')
 NOT_VERIFIED = ['dict insertion order is the protocol order (CPython dict semantics)',
                 'int/Fraction comparison is exact rational comparison']
 EXHAUSTIVE = {'thorough': True}
@@ -63,22 +71,46 @@ def _directed(rng):
 def _gen(rng, tier):
     N = 1500 if tier == 'quick' else 30000
     yield from _directed(rng)
+    # long majority cycles (4-7 candidates) and large profiles with every weight type, through the real converter
+    import families
+    for t in range(12 if tier == 'quick' else 120):
+        m = rng.choice([4, 5, 6, 6, 7])
+        if t % 2 == 0:
+            prof, tags = families.gen_ranked_cycle(rng, m), ['ranked_cycle']
+        else:
+            wtype = CC.WTYPES[(t // 2) % len(CC.WTYPES)]
+            prof = CC.random_profile(rng, m, n_ballots=rng.randint(3, 8), wtype=wtype, max_shared=4)
+            tags = ['large_profile'] + (['wtype:' + wtype] if wtype != 'int' else [])
+        uab = rng.random() < 0.5
+        votes = CC.profile_to_pairwise(prof, uab)
+        if votes:
+            for op in OPS:
+                yield _mk(op, votes, tags + ['from_ranked', 'uab_true' if uab else 'uab_false'])
     for k in range(N):
         r = rng.random()
         m = rng.choice([2, 3, 3, 4, 4, 4, 5, 5, 6, 6]) if rng.random() < 0.97 else 7
+        nt = None
         if r < 0.7:
             kind = rng.choice(['dense', 'sparse', 'sparse', 'tied', 'plain'])
             votes = CC.random_pairwise(rng, m, kind)
             tags = ['kind_' + kind]
+            if votes and rng.random() < 0.3 and all('/' not in s and len(s) < 6 for _, _, s in votes):
+                nt = CC.NTYPES[k % len(CC.NTYPES)]
+                votes = CC.retype_votes(votes, nt)
+                tags.append('ntype:' + nt)
         else:
-            prof = CC.random_profile(rng, m)
+            wtype = rng.choice(['int'] * 6 + CC.WTYPES[1:])
+            prof = CC.random_profile(rng, m, wtype=wtype)
             uab = rng.random() < 0.5
             votes = CC.profile_to_pairwise(prof, uab)
-            tags = ['from_ranked', 'uab_true' if uab else 'uab_false']
+            tags = ['from_ranked', 'uab_true' if uab else 'uab_false'] + (['wtype:' + wtype] if wtype != 'int' else [])
         if not votes:
             continue
         for op in OPS:
-            yield _mk(op, votes, tags)
+            c = _mk(op, votes, tags)
+            if nt:
+                c['_ntype'] = nt
+            yield c
     if tier == 'thorough':
         for m in (2, 3, 4):
             for votes in CC.exhaustive_pairwise(m, CC.PAIR_STATES):
@@ -94,18 +126,51 @@ def _gen(rng, tier):
 def generate(rng, tier):
     for c in _gen(rng, tier):
         c['_tags'] += CC.features(c)
+        d, cands = CC.dmap(c), CC.cands_of(c)
         if any('/' in s for _, _, s in c['votes']):
             c['_tags'].append('fraction')
+        if any(Fraction(s) == 0 for _, _, s in c['votes']):
+            c['_tags'].append('zero_count')
+        if any(Fraction(s) >= 10 ** 9 for _, _, s in c['votes']):
+            c['_tags'].append('big')
+        if any(Fraction(s).denominator >= 10 ** 12 for _, _, s in c['votes']) and '_ntype' not in c:
+            c['_tags'].append('close_fraction')
+        if len(cands) >= 6:
+            c['_tags'].append('cands_6_7')
+        sm = CC.smith_set(d, cands)
+        if len(sm) >= 4 and not CC.condorcet_winner(d, cands):
+            c['_tags'].append('long_cycle')
+        if sm != CC.schwartz_set(d, cands):
+            c['_tags'].append('smith_ne_schwartz')
+        # state between calls: a third of the cases use the selector object shared by the whole run, half of those after
+        # another (larger) input
+        r = rng.random()
+        if r < 0.33:
+            c['_obj'] = 'shared'
+            c['_tags'].append('shared_instance')
+            if r < 0.17:
+                c['_pre'] = True
+                c['_tags'].append('twice')
         yield c
+
+
+_SHARED = {}
 
 
 def impl(case):
     import votelib.evaluate.condorcet as vc
     votes = CC.votes_dict(case)
     cls = {'cw': vc.CondorcetWinner, 'smith': vc.SmithSet, 'schwartz': vc.SchwartzSet}[case['op']]
+    if case.get('_obj') == 'shared':
+        sel = _SHARED.setdefault(case['op'], cls())
+    else:
+        sel = cls()
+    if case.get('_pre'):
+        decoy = {(f'z{a}', f'z{b}'): 1 + (3 * a + 5 * b) % 7 for a in range(6) for b in range(6) if a != b}
+        guarded(lambda: sel.evaluate(decoy))
 
     def run():
-        res = cls().evaluate(votes)
+        res = sel.evaluate(votes)
         return [NAMES.i(c) for c in res]
     return guarded(run)
 
